@@ -7,11 +7,11 @@ ALL = ["C%02d" % i for i in range(1, 21)]
 
 # id -> (technique, level text, level note, design section)
 CLAIMED = {
- "C15": ("stateful property-based testing of channel life cycles through the node's real tracker (regtest blocks with funding, double-spend, mutual / unilateral close, sweeps), forget requests, heartbeats, reorgs around the burial depth, restarts, id-reuse attempts; oracle = independent chain/forget model kept by the harness (a ready channel may vanish from memory and store only if forget was acknowledged and a terminal event is buried >= 100 on the model's best chain; ids at or below a forgotten id are never created again)",
+ "C15": ("stateful property-based testing of channel life cycles through the node's real tracker (regtest blocks with funding, double-spend, mutual / unilateral close, sweeps), forget requests, heartbeats, reorgs around the burial depth, restarts, id-reuse attempts; oracle = independent chain/forget model kept by the harness (a ready channel may vanish from memory and store only if forget was acknowledged and a terminal event is buried >= 100 on the model's best chain; ids at or below a forgotten id are never created again); compact, streamed or wire delivery of blocks",
          "Held-on-N-histories exploration (burial depths 98..102 hit by construction).",
          "Over-retention is never judged; received HTLCs not required in the swept rule (weaker than the signer's, hence sound); compact block delivery only.",
          "C15"),
- "C20": ("randomised concurrency testing: proptest-generated programs of 2-3 threads with fixed-argument requests (plain scenario, and a chain scenario with funded and confirmed channels, a stub, funding-transaction signing, setup_channel and blocks that hold a closing transaction), thread schedules explored with shuttle (random and PCT schedulers, fixed seeds) on vls-core built with --cfg vls_verif; oracle = no deadlock/panic in any explored schedule and replies + final state equal to those of some sequential interleaving on a fresh world (linearizability witness search)",
+ "C20": ("randomised concurrency testing: proptest-generated programs of 2-3 threads with fixed-argument requests (plain scenario, and a chain scenario with funded and confirmed channels, a stub, funding-transaction signing, setup_channel and blocks that hold a closing transaction), thread schedules explored with shuttle (random and PCT schedulers, fixed seeds) on vls-core built with --cfg vls_verif; oracle = no deadlock/panic in any explored schedule and replies + final state equal to those of some sequential interleaving on a fresh world (linearizability witness search); wire-level ValidateCommitmentTx2 (protocol version 4) and invoice requests among the racing requests",
          "Exploration of sampled schedules (60 per program quick, 400 thorough), not enumeration; four genuine lock-order inversions and one atomicity defect (the last one introduced by an earlier repair and found by the check) were repaired by fix: commits and are kept as regression replays.",
          "The hook swaps std::sync for shuttle::sync in vls-core's prelude; behaviour outside those primitives is not modelled.",
          "C20"),
@@ -23,7 +23,7 @@ CLAIMED = {
          "Held-on-N-histories exploration (about 50k restores per quick run); the genuine defect found (forget flag not durable) was repaired by a fix: commit.",
          "Twin restored through the in-memory KVV store (redb reopen: C16); cloud store twin is restored from the committed local store.",
          "C11"),
- "C14": ("stateful property-based testing of channel monitors: generated transaction pools grouped into blocks, connect/disconnect histories with reorgs, compact and streamed delivery, driven both directly on ChainListener and through the real ChainTracker; oracle = differential against a fresh signer that connected only the surviving best chain, connect-disconnect identity, no abort",
+ "C14": ("stateful property-based testing of channel monitors: generated transaction pools grouped into blocks, connect/disconnect histories with reorgs, compact and streamed delivery, driven both directly on ChainListener and through the real ChainTracker; oracle = differential against a fresh signer that connected only the surviving best chain, connect-disconnect identity, no abort; blocks delivered at API level or with protocol messages through the root handler",
          "Held-on-N-histories exploration; four genuine defects (forward-order undo, inverted watch changes, abort on revoked commitment, streamed removal always refused) were repaired by fix: commits.",
          "Regtest only for tracker-level runs; HTLC/second-level spends carry synthetic scripts (the monitor looks at outpoints only); chains up to 40 blocks.",
          "C14"),
@@ -31,59 +31,59 @@ CLAIMED = {
          "Held-on-N-histories exploration; three genuine defects (header popped before validation, streamed removal compared against the wrong hash, no abort path for refused streamed blocks) were repaired by fix: commits and are kept as regression replays.",
          "Only regtest proof-of-work can be mined: mainnet/testnet checkpoints get refusal paths only; retarget rule is the x4 band as implemented (no timestamp retargeting).",
          "C13"),
- "C09": ("property-based testing: sweeps with labelled destinations and version/locktime/sequence drawn around their bounds; second-level HTLC transactions as hand-built BOLT-3 reference +- one mutation; oracle = acceptance implies a reference predicate, sighash equality with the hand-built reference, signature verification under the expected derived key",
+ "C09": ("property-based testing: sweeps with labelled destinations and version/locktime/sequence drawn around their bounds; second-level HTLC transactions as hand-built BOLT-3 reference +- one mutation; oracle = acceptance implies a reference predicate, sighash equality with the hand-built reference, signature verification under the expected derived key; both validator factories; operator filter assembled with merge",
          "Held-on-N-cases exploration; the genuine defect found (sequence checked on input 0 instead of the signed input) was repaired by a fix: commit.",
          "HTLC redeemscripts from LDK (generator side only); reference second-level tx and to-local script hand-built with rust-bitcoin.",
          "C09"),
- "C19": ("property-based testing with generators derived at build time from the message definitions (build.rs parses msgs.rs/model.rs; unknown field types fail the build): encode/decode/re-encode round trip, Debug equality, typed-path agreement; semantic oracle for streamed PSBTs (transaction, previous outputs, independent BIP-141 segwit-flag rule); byte-level mutation fixed-point check in the thorough tier",
+ "C19": ("property-based testing with generators derived at build time from the message definitions (build.rs parses msgs.rs/model.rs; unknown field types fail the build): encode/decode/re-encode round trip, Debug equality, typed-path agreement; semantic oracle for streamed PSBTs (transaction, previous outputs, independent BIP-141 segwit-flag rule); byte-level mutation fixed-point check in the thorough tier; framed write/read path over short-writing transports",
          "Held-on-N-cases exploration over all 112 message types (>= 50 hits each or the run is vacuous); the genuine defect found (message id collision) was repaired by a fix: commit.",
          "Symmetric encoder/decoder errors are invisible to a round trip; rust-bitcoin and the txoo proof builder construct inputs.",
          "C19"),
- "C07": ("property-based testing: channel states reached by real requests x generated close proposals with labelled outputs through both entry points; oracle = acceptance implies a reference predicate (exists output assignment), signature verification against the harness-built closing transaction, closed flag in memory and in a signer restored from the store",
+ "C07": ("property-based testing: channel states reached by real requests x generated close proposals with labelled outputs through both entry points; oracle = acceptance implies a reference predicate (exists output assignment), signature verification against the harness-built closing transaction, closed flag in memory and in a signer restored from the store; both validator factories; start-up allowlist scenario over the wire",
          "Held-on-N-cases exploration of mutual-close validation.",
          "Trusted: LDK ClosingTransaction builder, BOLT-3 closing witness weight 222, +2/kw tolerance.",
          "C07"),
- "C08": ("property-based testing: on-chain transactions assembled from labelled inputs/outputs/channels incl. arithmetic extremes; oracle = acceptance implies a reference predicate in u128, UnknownDestinations index set equals the labelled set, velocity ledger",
+ "C08": ("property-based testing: on-chain transactions assembled from labelled inputs/outputs/channels incl. arithmetic extremes; oracle = acceptance implies a reference predicate in u128, UnknownDestinations index set equals the labelled set, velocity ledger; both validator factories; wire group (SignWithdrawal with utxos and streamed PSBT, witnesses verified, unknown-destination set compared); start-up allowlist scenario",
          "Held-on-N-cases exploration of check_onchain_tx and Approve::handle_proposed_onchain.",
          "Weight lower bound as documented in check_onchain_tx; explicit approval of unknown outputs outside the oracle.",
          "C08"),
- "C18": ("metamorphic property-based testing: same channel id under different creation orders / other channels / setup / restart / lone world must give identical keys, different ids different keys; independent BOLT-3 derivation and compact-store acceptance for secrets",
+ "C18": ("metamorphic property-based testing: same channel id under different creation orders / other channels / setup / restart / lone world must give identical keys, different ids different keys; independent BOLT-3 derivation and compact-store acceptance for secrets; world b under a permissive operator filter, secrets ahead of the channel state requested",
          "Held-on-N-cases exploration over seeds, styles (Native, Ldk), networks and id sets.",
          "Far-away commitment numbers are observed with the test-only counter setter (not a state-machine property).",
          "C18"),
- "C06": ("stateful property-based testing on one node with 2-3 channels: generated approvals, per-channel content edits pushed to either commitment in any order, preimages, pruning, restarts; oracle = invariant over the ledger of accepted commitment contents (u128 msat)",
+ "C06": ("stateful property-based testing on one node with 2-3 channels: generated approvals, per-channel content edits pushed to either commitment in any order, preimages, pruning, restarts; oracle = invariant over the ledger of accepted commitment contents (u128 msat); both validator factories (confirmed funding)",
          "Held-on-N-histories exploration; the genuine defect found (payments applied at revoke without re-validation) was repaired by a fix: commit and kept as a regression replay.",
          "Approval liveness (existence only) read from the node after pruning; issue-331 tolerated imbalance outside the oracle.",
          "C06"),
- "C04": ("property-based testing: generated setups x contents x one of 28 mutations of the raw transaction / witness scripts / arguments; oracle = byte equality with and signature verification against an independently built BOLT-3 reference transaction, differential between the semantic and raw entry points",
+ "C04": ("property-based testing: generated setups x contents x one of 28 mutations of the raw transaction / witness scripts / arguments; oracle = byte equality with and signature verification against an independently built BOLT-3 reference transaction, differential between the semantic and raw entry points; both validator factories; wire group: commitment 0 and 1 through SignRemoteCommitmentTx2 (HTLC amounts in msat) and the raw-transaction request with a tx field that differs from the PSBT",
          "Held-on-N-cases exploration of both counterparty-commitment entry points against reference transactions.",
          "Trusted: LDK CommitmentTransaction/build_htlc_transaction builders fed directly from the generated setup, rust-bitcoin sighash, libsecp256k1.",
          "C04"),
- "C05": ("property-based testing with boundary-value and arithmetic-extreme generators; oracle = acceptance implies a reference predicate written from the property statement in 128-bit arithmetic; a chain group drives funded channels through funding confirmation, burial, closes and reorgs (real regtest blocks through the node's tracker, on-chain validator) against a reference chain model; a refused setup must not leave a usable channel",
+ "C05": ("property-based testing with boundary-value and arithmetic-extreme generators; oracle = acceptance implies a reference predicate written from the property statement in 128-bit arithmetic; a chain group drives funded channels through funding confirmation, burial, closes and reorgs (real regtest blocks through the node's tracker, on-chain validator) against a reference chain model; a refused setup must not leave a usable channel; blocks between NewChannel, SetupChannel and the request; wire group for the initial commitments of a pushed channel",
          "Held-on-N-cases exploration; the genuine defect found (implied fee rate truncated to 32 bits) was repaired by a fix: commit and kept as a regression replay.",
          "Dust limit 330 sat and +2/kw rounding tolerance so that the oracle never demands more than the property; min_funding_depth is fixed at 1 by OnchainValidatorFactory.",
          "C05"),
- "C12": ("property-based testing of VelocityControl against an exact approvals ledger (window-sum oracle in u128), plus stateful generation on a real node (invoices, keysends, retries of the last invoice, on-chain fees) and on VelocityApprover with restarts from the store",
+ "C12": ("property-based testing of VelocityControl against an exact approvals ledger (window-sum oracle in u128), plus stateful generation on a real node (invoices, keysends, retries of the last invoice, on-chain fees) and on VelocityApprover with restarts from the store; invoices also proposed through the approver paths",
          "Held-on-N-sequences exploration; two genuine defects (controls reset by restart, fee control not persisted) were repaired by fix: commits and kept as regression replays.",
          "Non-decreasing timestamps; on-chain fees capped at 150 sat per request.",
          "C12"),
- "C17": ("property-based testing with constructed tamper operators: round-trip and injectivity oracles over three authentication layers (LSS per-value tag, shared mutation-list tag in both implementations, nonce binding)",
+ "C17": ("property-based testing with constructed tamper operators: round-trip and injectivity oracles over three authentication layers (LSS per-value tag, shared mutation-list tag in both implementations, nonce binding); start-up group driving vlsd external-persist driver (init_state) against a tampering storage",
          "Held-on-N-cases exploration; collisions between record lists whose key|version|value concatenations are equal are the genuine unframed-input weakness, listed as known findings (one signature per layer); any other collision or accepted tamper (other key, version, swapped, truncated, damaged tag, replayed or restart-repeated nonce) is reported.",
          "HMAC-SHA256/ChaCha20 trusted; versions < 2^63.",
          "C17"),
- "C01": ("stateful property-based testing: generated request histories on a real channel, executed at API level or through the vls-protocol-signer wire handlers at negotiated protocol versions 4, 5 and 6 (old combined validate+revoke, point requests that return secrets), ghost ledger of disclosed secrets vs independently verified accepted validations, restarts and storage faults (failed channel write, answer, crash-restart) injected",
+ "C01": ("stateful property-based testing: generated request histories on a real channel, executed at API level or through the vls-protocol-signer wire handlers at negotiated protocol versions 4, 5 and 6 (old combined validate+revoke, point requests that return secrets), ghost ledger of disclosed secrets vs independently verified accepted validations, restarts and storage faults (failed channel write, answer, crash-restart) injected; also with the on-chain validator factory on a channel with confirmed funding, and on a channel whose SetupChannel was refused",
          "Held-on-N-histories exploration of the holder revocation state machine against an explicit ledger oracle; not a proof.",
          "Trusted: LDK commitment/HTLC transaction builders used for the reference transactions, libsecp256k1 verification.",
          "C01"),
- "C02": ("stateful property-based testing: same machine (API level and wire handlers at protocol versions 4/5/6) with signing requests, ledger sets Signed/Revoked must stay disjoint and Revoked frozen after first signature",
+ "C02": ("stateful property-based testing: same machine (API level and wire handlers at protocol versions 4/5/6) with signing requests, ledger sets Signed/Revoked must stay disjoint and Revoked frozen after first signature; also with the on-chain validator factory on a channel with confirmed funding",
          "Held-on-N-histories exploration; the one genuine defect found (revoke after sign with a pre-validated successor) is repaired by a fix: commit and kept as a regression replay.",
          "Trusted: LDK builders for signature attribution; mutual-close signatures are outside Signed.",
          "C02"),
- "C03": ("stateful property-based testing of sign/revoke interleavings with two counterparty seeds + model-based testing of the compact secret store against an independent BOLT-3 derivation",
+ "C03": ("stateful property-based testing of sign/revoke interleavings with two counterparty seeds + model-based testing of the compact secret store against an independent BOLT-3 derivation; both validator factories (confirmed funding), carve-out operator filter cases",
          "Held-on-N-histories exploration with ledger invariants (a),(b),(c) and a reference model of the secret store.",
          "Trusted: LDK builders; store sequences limited to shapes the channel can feed (contiguous indices, right-secret retries).",
          "C03"),
- "C16": ("stateful property-based testing: differential (memory vs redb) + BTreeMap reference model; transaction invariants for the cloud store",
+ "C16": ("stateful property-based testing: differential (memory vs redb) + BTreeMap reference model; transaction invariants for the cloud store; batches may write one key twice with increasing versions",
          "Generated op sequences over small key/version/value alphabets are executed on the real MemoryKVVStore, RedbKVVStore (with real reopen) and CloudKVVStore and compared step by step with a reference model; held-on-N-cases exploration, not a proof.",
          "Trusted: redb itself, tmpfs for the database files; batches with duplicate keys, clear_database and reset_versions are outside the domain.",
          "C16"),
